@@ -364,7 +364,7 @@ func classifyCrash(stderr string, code int) string {
 	switch {
 	case strings.Contains(stderr, "WARNING: DATA RACE"):
 		blk := stderr[strings.Index(stderr, "WARNING: DATA RACE"):]
-		if strings.Contains(blk, "github.com/pascaldekloe/mqtt") {
+		if raceInLibrary(blk) {
 			return "data-race/" + raceSig(blk)
 		}
 		return "harness"
@@ -393,6 +393,38 @@ func classifyCrash(stderr string, code int) string {
 		return "hang/child-watchdog"
 	}
 	return "harness"
+}
+
+// raceInLibrary tells whether one of the two conflicting accesses of a race
+// report happened in library code (its innermost non-runtime frame). A race
+// between two accesses inside the harness is the harness's own, also when the
+// library sits further up one of the stacks.
+func raceInLibrary(blk string) bool {
+	lines := strings.Split(blk, "\n")
+	for i, l := range lines {
+		t := strings.TrimSpace(l)
+		isAccess := strings.HasPrefix(t, "Read at ") || strings.HasPrefix(t, "Write at ") || strings.HasPrefix(t, "Previous read at ") || strings.HasPrefix(t, "Previous write at ") || strings.HasPrefix(t, "Atomic ") || strings.HasPrefix(t, "Previous atomic ")
+		if !isAccess {
+			continue
+		}
+		for _, f := range lines[i+1:] {
+			f = strings.TrimSpace(f)
+			if f == "" {
+				break
+			}
+			if strings.HasPrefix(f, "/") {
+				continue // file and line
+			}
+			if strings.HasPrefix(f, "github.com/pascaldekloe/mqtt.") || strings.HasPrefix(f, "github.com/pascaldekloe/mqtt/mqtttest.") {
+				return true
+			}
+			if strings.HasPrefix(f, "verif/") || strings.HasPrefix(f, "main.") || strings.HasPrefix(f, "github.com/") {
+				break // the harness (or its checker library) made the access
+			}
+			// standard library frame: look further up
+		}
+	}
+	return false
 }
 
 func raceSig(blk string) string {
